@@ -9,7 +9,9 @@ the real macro's output (`/verif/macroharness/src/ir.rs`).
 -/
 namespace Unimock.Codegen
 
-inductive Recv | ref | mutRef | owned | rc | arc | pinMut
+/-- `typedRef` / `typedMut`: the longhand spellings `self: &Self` / `self: &mut Self`, which the macro classifies like an
+    owned receiver (`syn::Receiver { reference: None, .. }`) -/
+inductive Recv | ref | mutRef | owned | rc | arc | pinMut | typedRef | typedMut
   deriving Repr, DecidableEq, Inhabited
 
 /-- classes of non-receiver parameters (all with element type `u32` so that values are comparable) -/
@@ -18,6 +20,7 @@ inductive PClass
   | ref            -- `&u32`
   | refRef         -- `&&u32`
   | mutRef         -- `&mut u32`
+  | mutDyn         -- `&mut dyn core::fmt::Debug`: a `&mut` to a trait object (no lifetime spelled out: matched like any `&mut`)
   | mutImpossible  -- `&mut Vec<&'static u32>`: a `&mut` whose pointee mentions a lifetime
   | slice          -- `&[u32]`
   deriving Repr, DecidableEq, Inhabited
@@ -72,7 +75,7 @@ def fnParam (p : Param) : String := p.name
 
 def recvTy : Recv → String
   | .owned => "Self" | .rc => "Rc<Self>" | .arc => "Arc<Self>" | .pinMut => "Pin<&mutSelf>"
-  | .ref => "&Self" | .mutRef => "&mutSelf"
+  | .ref => "&Self" | .mutRef => "&mutSelf" | .typedRef => "&Self" | .typedMut => "&mutSelf"
 
 /-- `default_delegator_call`'s constructor of the delegator -/
 def delegateCtor : Recv → String
@@ -150,6 +153,8 @@ def delegatorAccessor : Recv → String
   | .rc => "{<Rc<::unimock::Unimock>as::unimock::private::DelegateToDefaultImpl>::from_delegator(self)}"
   | .arc => "{<Arc<::unimock::Unimock>as::unimock::private::DelegateToDefaultImpl>::from_delegator(self)}"
   | .pinMut => "{<Pin<&mut::unimock::Unimock>as::unimock::private::DelegateToDefaultImpl>::from_delegator(self)}"
+  | .typedRef => "{<&::unimock::Unimockas::unimock::private::DelegateToDefaultImpl>::from_delegator(self)}"
+  | .typedMut => "{<&mut::unimock::Unimockas::unimock::private::DelegateToDefaultImpl>::from_delegator(self)}"
 
 structure DelegatorIR where
   accessor : String
@@ -167,6 +172,7 @@ def inputType : PClass → String
   | .ref => "&'__iu32"
   | .refRef => "&'__i&'__iu32"
   | .mutRef => "&'__imutu32"
+  | .mutDyn => "&'__imutdyncore::fmt::Debug"
   | .mutImpossible => impossible
   | .slice => "&'__i[u32]"
 
@@ -177,6 +183,7 @@ def debugExpr (p : Param) : String :=
   | .ref => s!"(*{p.name}).unimock_try_debug()"
   | .refRef => s!"(**{p.name}).unimock_try_debug()"
   | .mutRef => s!"(&*{p.name}).unimock_try_debug()"
+  | .mutDyn => s!"(&*{p.name}).unimock_try_debug()"
   | .mutImpossible => s!"(&*{p.name}).unimock_try_debug()"
   | .slice => s!"{p.name}.unimock_try_debug()"
 
